@@ -137,6 +137,8 @@ class RenderHarness(Harness):
         self.covers(ctx, tree, text)
         if self.tv_pick(ctx.trace):
             m, zero = self.small_model(ctx)
+            if any(x > 20000 for k_, x in (m or {}).items() if k_.startswith('items_before')):
+                return info          # validation sample only for lists the native (debug) build writes and reads quickly
             script = native_script(tree, m)
             ctx.tv = {'script': script, 'expect': None, 'post': ['render', {'text': text if zero else None, 'reading': got}]}
         return info
